@@ -373,6 +373,77 @@ theorem tick_effect (s s' : PState) (now : Int) (room : Nat) (outs : List Out)
     obtain ⟨a, b⟩ := cleanupAll_keeps _ _ _ _ _ _ _ hc
     exact ⟨a, b, rfl, rfl⟩
 
+/-- An entry followed through a sequence of ticks (times and queue states arbitrary): `none` once it has been deleted. -/
+def runTicks (g : GSet) (db : List (VaaId × Bytes)) : VState → List (Int × Bool) → Option VState
+  | st, [] => some st
+  | st, (now, room) :: rest =>
+    match cleanupEntry (some g) db now room st with
+    | .keep st' _ => runTicks g db st' rest
+    | _ => none
+
+private theorem keep_retry_le (g : GSet) (db : List (VaaId × Bytes)) (now : Int) (room : Bool) (st st' : VState) (o : List Out)
+    (h : cleanupEntry (some g) db now room st = .keep st' o) (hb : st.retryCount ≤ maxRetries) :
+    st'.retryCount ≤ maxRetries ∧ st.retryCount ≤ st'.retryCount ∧ st'.firstObserved = st.firstObserved := by
+  unfold cleanupEntry at h
+  split at h
+  · cases h
+  · split at h
+    · unfold settleAct settleGs at h
+      cases hg : st.gs <;> rw [hg] at h <;> cases h <;> exact ⟨hb, Nat.le_refl _, rfl⟩
+    · split at h
+      · cases h
+      · split at h
+        · cases h
+        · rename_i hex
+          split at h
+          · rename_i hdue
+            unfold retryAct at h
+            cases ho : st.ourMsg with
+            | none => rw [ho] at h; cases h
+            | some ob =>
+              rw [ho] at h
+              cases hv : st.ourVAA with
+              | none => rw [hv] at h; cases h
+              | some v =>
+                rw [hv] at h
+                cases h
+                have : ¬ (st.retryCount ≥ maxRetries) := by
+                  intro hge
+                  apply hex
+                  refine ⟨hdue.1, ?_⟩
+                  unfold exhausted
+                  simp [ho, hge]
+                refine ⟨?_, ?_, rfl⟩
+                · show st.retryCount + 1 ≤ maxRetries
+                  omega
+                · show st.retryCount ≤ st.retryCount + 1
+                  omega
+          · cases h; exact ⟨hb, Nat.le_refl _, rfl⟩
+
+/-- **The retry budget is never exceeded**, whatever the tick sequence (stalls, bursts, full queues): along every run of
+ticks the retry counter stays within `maxRetries`, never decreases, and the first-seen time is never touched — so the age
+only grows and an entry at its budget is deleted by the next tick that considers it (`exhausted_expires`). -/
+theorem retry_budget_invariant (g : GSet) (db : List (VaaId × Bytes)) :
+    ∀ (ticks : List (Int × Bool)) (st st' : VState), st.retryCount ≤ maxRetries → runTicks g db st ticks = some st' →
+      st'.retryCount ≤ maxRetries ∧ st.retryCount ≤ st'.retryCount ∧ st'.firstObserved = st.firstObserved := by
+  intro ticks
+  induction ticks with
+  | nil =>
+    intro st st' hb h
+    simp [runTicks] at h
+    subst h
+    exact ⟨hb, Nat.le_refl _, rfl⟩
+  | cons t rest ih =>
+    intro st st' hb h
+    obtain ⟨now, room⟩ := t
+    unfold runTicks at h
+    split at h
+    · rename_i st1 o hk
+      obtain ⟨a, b, c⟩ := keep_retry_le g db now room st st1 o hk hb
+      obtain ⟨a', b', c'⟩ := ih st1 st' a h
+      exact ⟨a', by omega, by rw [c', c]⟩
+    · cases h
+
 /-- Non-vacuity: a concrete pending entry, five minutes old, never retried — retried by the tick. -/
 def sampleVaa : Vaa :=
   { version := 1, gsIndex := 0, sigs := [],
